@@ -8,7 +8,7 @@ import (
 )
 
 var Specs = map[string]*core.Spec{
-	"C11": {Prop: "C11", World: "W2 compsim/queue", Gen: GenQ, Decode: DecodeQ, Exec: ExecQ,
+	"C11": {Prop: "C11", World: "W2 compsim/queue", Gen: GenQ, Decode: DecodeQ, Exec: ExecQ, LightRuns: true,
 		Rule:           "seeded schedules of forwarded writes (Put/DeleteRange/Txn through the real ForwardingKVServer and IndexNotificationQueue), Notify, cancellations, deadlines and clock advances relative to the 1 s sweep; non-trivial = a waiter was cancelled while a live waiter with a smaller revision kept it below the heap root; distinct = digests of (call, outcome) sequences",
 		Real:           []string{"storage.IndexNotificationQueue (Run loop, sweep)", "util/heap", "util.SyncMap", "regattaserver.ForwardingKVServer"},
 		Stub:           []string{"leader KVClient: returns the scheduled revision", "apply path: kernel calls Notify", "clock: synctest fake clock"},
